@@ -28,7 +28,8 @@ def render(val):
 def script_text(df, ver, rule):
     """POSIX sh text of version `ver` of .do file `df`; rule = {target: [ops]}"""
     lines = ['# %s version %d (generated)' % (df, ver),
-             'rd() { if [ -e "$1" ]; then cat "$1"; else printf "@none.0()"; fi; }',
+             'rd() { if [ -e "$1" ]; then tr -d "~" < "$1"; else printf "@none.0()"; fi; }',
+             'vpad() { if [ "${VT_PAD:-0}" -gt 0 ]; then head -c "$VT_PAD" /dev/zero | tr "\\0" "~"; fi; }',
              'echo "start $1" >> "$VT_LOG"',
              'case "$1" in']
     for t, ops in rule.items():
@@ -47,19 +48,22 @@ def script_text(df, ver, rule):
                 lines.append('    redo-always')
             elif op == 'out':
                 reads = ','.join('$(rd %s)' % shquote(a) for a in o['args'])
-                lines.append('    OUT="%s@%s.%d(%s)"' % (t, df, ver, reads))
+                lines.append('    OUT="%s@%s.%d(%s)"' % (t, df, o['rc'] if o['rc'] else ver, reads))
                 ch = o['ch']
                 if ch in ('stdout', 'both'):
-                    lines.append('    printf "%s" "$OUT"')
+                    lines.append('    printf "%s" "$OUT"; vpad')
                 if ch in ('file', 'both'):
-                    lines.append('    printf "%s" "$OUT" > "$3"')
+                    lines.append('    { printf "%s" "$OUT"; vpad; } > "$3"')
                 if ch == 'direct':
-                    lines.append('    printf "%s" "$OUT" > "$1"')
+                    lines.append('    { printf "%s" "$OUT"; vpad; } > "$1"')
             elif op == 'stamp':
                 lines.append('    printf "%s" "$OUT" | redo-stamp')
             elif op == 'exit':
                 lines.append('    echo "exit $1 %d" >> "$VT_LOG"' % o['rc'])
-                lines.append('    exit %d' % o['rc'])
+                if o['rc'] < 0:
+                    lines.append('    kill -%d $$' % (-o['rc']))     # die by signal: status -signo
+                else:
+                    lines.append('    exit %d' % o['rc'])
             elif op == 'gate':
                 lines.append('    echo "gate $1 %s" >> "$VT_LOG"; read _x < "$VT_GATES/%s"' % (o['args'][0], o['args'][0]))
             elif op == 'err':
@@ -92,12 +96,15 @@ def stamp_of(path):
 
 
 class Project:
-    def __init__(self, prog, root, bindir, trace=None, log_mode=None):
+    def __init__(self, prog, root, bindir, trace=None, log_mode=None, pad=0, watch=False):
         self.prog = prog
         self.root = root
         self.bindir = bindir
         self.trace = trace
         self.log_mode = log_mode        # None = default (redo-log viewer), '0' = REDO_LOG=0
+        self.pad = pad                  # bytes of padding appended to every script output (size class)
+        self.watch = watch              # poll the plain files while a command runs (no partial target)
+        self.observed = {}              # name -> set of (text, padlen) seen by the reader thread
         self.dir = os.path.join(root, 'p')
         self.vtlog = os.path.join(root, 'vt.log')
         self.files = list(prog['plain']) + list(prog['rules'])
@@ -145,6 +152,7 @@ class Project:
         env['PATH'] = self.bindir + ':' + env.get('PATH', '/usr/bin:/bin')
         env['VT_LOG'] = self.vtlog
         env['VT_GATES'] = os.path.join(self.root, 'gates')
+        env['VT_PAD'] = str(self.pad)
         if self.trace:
             env['REDO_VERIF_TRACE'] = self.trace
         if self.log_mode is not None:
@@ -162,6 +170,26 @@ class Project:
             pass
         p = subprocess.Popen(argv, cwd=self.dir, env=self.env(extra_env), stdin=subprocess.DEVNULL,
                              stdout=subprocess.PIPE, stderr=subprocess.PIPE, start_new_session=True)
+        stop = []
+        th = None
+        if self.watch:
+            import threading
+            self.observed = {n: set() for n in self.prog['plain']}
+
+            def reader():
+                while not stop:
+                    for n in self.prog['plain']:
+                        try:
+                            with open(self.path(n), 'rb') as f:
+                                b = f.read()
+                            core = b.rstrip(b'~')
+                            self.observed[n].add((core.decode('utf-8', 'replace'), len(b) - len(core)))
+                        except FileNotFoundError:
+                            self.observed[n].add((None, 0))
+                        except OSError:
+                            pass
+            th = threading.Thread(target=reader, daemon=True)
+            th.start()
         timed_out = False
         try:
             so, se = p.communicate(timeout=timeout)
@@ -173,6 +201,9 @@ class Project:
                 pass
             so, se = p.communicate()
         self.wait_quiet(p.pid)
+        if th:
+            stop.append(1)
+            th.join()
         started = []
         if os.path.exists(self.vtlog):
             for line in open(self.vtlog):
@@ -208,7 +239,11 @@ class Project:
         for n in self.files:
             try:
                 with open(self.path(n)) as f:
-                    files[n] = f.read()
+                    txt = f.read()
+                core = txt.rstrip('~')
+                files[n] = core
+                if self.pad and '@user.' not in core and n not in self.prog['rules'] and len(txt) - len(core) != self.pad:
+                    files[n] = core + '<padding %d of %d>' % (len(txt) - len(core), self.pad)
             except FileNotFoundError:
                 files[n] = None
         rows, edges = {}, set()
@@ -311,16 +346,19 @@ def history_input(h):
     return tuple(step_input(s) for s in h)
 
 
-def replay_group(prog, alts, root, bindir, trace=None, log_mode=None, jflag=None, cmd_timeout=60, cats=None):
+def replay_group(prog, alts, root, bindir, trace=None, log_mode=None, jflag=None, cmd_timeout=60, cats=None,
+                 pad=0, watch=False):
     """Execute one user-level history.  `alts` are all specification behaviours with that
     input (they differ where the implementation is legitimately nondeterministic, e.g. the
     poll order of wait_for); the real execution must agree, step by step, with at least one.
     Returns (ok, report)."""
-    pj = Project(prog, root, bindir, trace=trace, log_mode=log_mode)
+    pj = Project(prog, root, bindir, trace=trace, log_mode=log_mode, pad=pad, watch=watch)
     report = []
     live = list(alts)
+    direct = any(o['op'] == 'out' and o['ch'] == 'direct' for vers in prog['rules'].values()
+                 for ver in vers for ops in ver.values() for o in ops)
 
-    def want(cat):
+    def want_cat(cat):
         return cats is None or cat in cats or cat.split('.')[0] in cats
 
     for i, step in enumerate(alts[0]):
@@ -340,9 +378,20 @@ def replay_group(prog, alts, root, bindir, trace=None, log_mode=None, jflag=None
                 argv.append('-j%d' % jflag)
             argv += list(step['targs'])
             extra = {'REDO_KEEP_GOING': '1'} if step['keep'] else {}
+            pre = pj.snapshot()['files'] if watch else None
             rc, so, se, started, to = pj.run(argv, timeout=cmd_timeout, extra_env=extra)
             snap = pj.snapshot()
             common_diffs = []
+            if watch and not direct:
+                # a concurrent reader may only ever see the old or the new complete file
+                for n, seen in pj.observed.items():
+                    okset = {pre[n], snap['files'][n]}
+                    for (txt, padlen) in seen:
+                        full = txt is None or '@user.' in txt or padlen == pad
+                        if txt not in okset or not full:
+                            common_diffs.append('reader saw %s = %r (+%d pad) during the command; old %r new %r'
+                                                % (n, txt, padlen, pre[n], snap['files'][n]))
+                            break
             if to:
                 common_diffs.append('command did not terminate within %ds' % cmd_timeout)
             if 'panicked' in se:
@@ -352,11 +401,11 @@ def replay_group(prog, alts, root, bindir, trace=None, log_mode=None, jflag=None
             for h in live:
                 st = h[i]
                 diffs = list(common_diffs)
-                if rc != st['rc'] and want('rc'):
+                if rc != st['rc'] and want_cat('rc'):
                     diffs.append('exit status: have %s, spec says %s' % (rc, st['rc']))
-                if sorted(started) != sorted(st['ran']) and want('ran'):
+                if sorted(started) != sorted(st['ran']) and want_cat('ran'):
                     diffs.append('scripts run: have %s, spec says %s' % (started, list(st['ran'])))
-                diffs += [txt for (cat, txt) in pj.compare(snap, st['snap']) if want(cat)]
+                diffs += [txt for (cat, txt) in pj.compare(snap, st['snap']) if want_cat(cat)]
                 if not diffs:
                     nxt.append(h)
                 elif best is None or len(diffs) < len(best):
@@ -372,6 +421,7 @@ def replay_group(prog, alts, root, bindir, trace=None, log_mode=None, jflag=None
             argv = ['redo-' + step['kind']]
             rc, so, se, started, to = pj.run(argv, timeout=cmd_timeout)
             got = sorted(x for x in so.split('\n') if x)
+            qsnap = pj.snapshot()
             best = None
             nxt = []
             for h in live:
@@ -381,6 +431,8 @@ def replay_group(prog, alts, root, bindir, trace=None, log_mode=None, jflag=None
                 want = sorted(h[i]['out'])
                 if got != want:
                     diffs.append('%s output: have %s, spec says %s' % (argv[0], got, want))
+                if 'snap' in h[i]:      # the query must leave files and database as they were
+                    diffs += [txt for (cat, txt) in pj.compare(qsnap, h[i]['snap']) if want_cat(cat)]
                 if not diffs:
                     nxt.append(h)
                 elif best is None:
